@@ -27,7 +27,7 @@ const UNICODE: &[&str] = &["\u{FEFF}", "\u{0}", "é", "日本", "𝒳", "\u{202e
 pub const BASE_SCHEMA: &str = "type Query { a: Int b(x: In, y: [E!]): T u: U i: I }\ntype T implements I { id: ID! t: T s: String @deprecated(reason: \"no\") }\ninterface I { id: ID! }\nunion U = T | V\ntype V { v: Float }\nenum E { A B }\ninput In { k: Int = 1 l: [In!] }\nscalar Date\ndirective @d(a: Int) repeatable on FIELD | QUERY | FRAGMENT_SPREAD\ntype Mutation { m(i: In!): T }\ntype Subscription { s: T }\n";
 pub const BASE_OP: &str = "#import F2 from \"./frag.graphql\"\nquery Q($v: Int = 1, $b: Boolean!) @d {\n  a\n  b(x: {k: $v, l: [{k: 2}]}, y: [A]) { id ...F1 ...F2 t @skip(if: $b) { id } }\n  u { __typename ... on T { id } ... on V { v } }\n  i { id }\n}\nfragment F1 on T { s x: id }\nmutation M { m(i: {k: 1}) { id } }\nsubscription S { s { id } }\n";
 pub const BASE_FRAG: &str = "fragment F2 on I { id }\n";
-pub const BASE_CONFIG: &str = "schema: ./schema.graphql\ndocuments: ./*.graphql\nextensions:\n  nitrogql:\n    generate:\n      schemaOutput: ./out/schema.d.ts\n      resolversOutput: ./out/resolvers.d.ts\n      serverGraphqlOutput: ./out/server.ts\n      type:\n        scalarTypes:\n          Date: string\n";
+pub const BASE_CONFIG: &str = "schema: ./schema.graphql\ndocuments:\n  - ./op.graphql\n  - ./frag.graphql\nextensions:\n  nitrogql:\n    generate:\n      schemaOutput: ./out/schema.d.ts\n      resolversOutput: ./out/resolvers.d.ts\n      serverGraphqlOutput: ./out/server.ts\n      type:\n        scalarTypes:\n          Date: string\n";
 
 fn mutate_tokens(text: &str, rng: &mut Rng) -> String {
     let toks = match lex(text) {
@@ -277,7 +277,13 @@ pub fn check_case(schema: &str, op: &str, frag: &str, config: &str) -> Vec<Viola
         if p.site().starts_with("crates/printer/") {
             // a printer that trips after an accepted check: say whether the listed root cause (bodies of unused
             // fragments are never checked) can be behind it, so that any other way to get there has its own signature
-            let unused = [op, frag].iter().any(|t| crate::refparse::parse_exec(t).map(|d| has_unused_fragment(&d)).unwrap_or(false));
+            // (the stage label of a per-file printer ends in #<index of the operation file>)
+            let texts = [op, frag];
+            let of_file: Vec<&str> = match stage.rsplit_once('#').and_then(|(_, k)| k.parse::<usize>().ok()).and_then(|k| texts.get(k).copied()) {
+                Some(t) => vec![t],
+                None => texts.to_vec(),
+            };
+            let unused = of_file.iter().any(|t| crate::refparse::parse_exec(t).map(|d| has_unused_fragment(&d)).unwrap_or(false));
             v.sig = format!("{}|{}", v.sig, if unused { "document-has-unused-fragment" } else { "every-fragment-used" });
         }
         out.push(v);
@@ -332,6 +338,11 @@ pub fn write_fuzz_corpus(dir: &str, n: u64, seed: u64) {
     }
 }
 
+thread_local! {
+    /// CLI runs in which `generate` went all the way (exit 0): the CLI part has reached the printers
+    pub static CLI_OK: std::cell::Cell<u64> = const { std::cell::Cell::new(0) };
+}
+
 pub fn check_cli(ctx: &Ctx, n: u64, schema: &str, op: &str, frag: &str, config: &str) -> Vec<Violation> {
     let replay = json!({"property":"C08","kind":"cli","schema":schema,"op":op,"frag":frag,"config":config});
     let dir = cli::scratch_dir(&ctx.out, "c08", n);
@@ -339,8 +350,23 @@ pub fn check_cli(ctx: &Ctx, n: u64, schema: &str, op: &str, frag: &str, config: 
     let mut out = vec![];
     if cli::write_project(&dir, &files).is_ok() {
         let r = cli::run_cli(&ctx.cli, &dir, &["generate", "--output-format", "json"], Duration::from_secs(60));
+        if r.status == Some(0) && r.panicked().is_none() {
+            CLI_OK.with(|c| c.set(c.get() + 1));
+        }
         if let Some(l) = r.panicked() {
-            out.push(Violation { sig: format!("C08|cli-panic|{}", r.panic_site().unwrap_or_default()), detail: format!("nitrogql-cli printed a panic: {l} (exit {:?})", r.status), replay: replay.clone() });
+            // the same signature as the library route gives this panic: one defect, one signature, whatever the route
+            let site = r.panic_site().unwrap_or_default();
+            let p = crate::panicguard::Panicked { file: site.clone(), line: 0, msg: r.panic_message().unwrap_or_default() };
+            let mut sig = format!("C08|panic|{site}|{}", p.msg_class());
+            if site.starts_with("crates/printer/") {
+                let unused = [op, frag].iter().any(|t| crate::refparse::parse_exec(t).map(|d| has_unused_fragment(&d)).unwrap_or(false));
+                // the CLI does not say which file it was printing: a project with an unused fragment anywhere gets the
+                // listed finding's class only if the library route (same inputs, per-file labels) agrees
+                let lib: Vec<String> = check_case(schema, op, frag, config).into_iter().map(|v| v.sig).collect();
+                let with = |c: &str| format!("{sig}|{c}");
+                sig = if lib.contains(&with("every-fragment-used")) || !unused { with("every-fragment-used") } else { with("document-has-unused-fragment") };
+            }
+            out.push(Violation { sig, detail: format!("nitrogql-cli printed a panic: {l} (exit {:?})", r.status), replay: replay.clone() });
         } else if r.signal.is_some() || r.timed_out || !matches!(r.status, Some(0) | Some(1)) {
             // clap exits 2 on usage errors; we never pass bad arguments
             out.push(Violation { sig: format!("C08|cli-abnormal-exit|status={:?}|signal={:?}|timeout={}", r.status, r.signal, r.timed_out), detail: format!("stderr: {}", clip(&r.stderr, 500)), replay: replay.clone() });
@@ -356,7 +382,26 @@ fn gen_inputs(rng: &mut Rng) -> (String, String, String, String, &'static str) {
     let mut frag = BASE_FRAG.to_string();
     let mut config = BASE_CONFIG.to_string();
     let kind;
-    match rng.below(16) {
+    match rng.below(17) {
+        15 => {
+            // one response key, two fields that cannot be merged (nitrogql does not implement FieldsInSetCanMerge, so
+            // check accepts these and every printer then sees them)
+            kind = "conflicting-response-keys";
+            let body = *rng.pick(&[
+                "b { x: id x: t { id } }",
+                "b { x: id x: s }",
+                "b { x: t { id } x: s }",
+                "u { ... on T { x: id } ... on V { x: v } }",
+                "b { ...CA ...CB }",
+                "b { x: id ... on T { x: t { id } } }",
+                "i { x: id ... on T { x: s } }",
+                "x: a x: b { id }",
+            ]);
+            op = format!("query Conflict {{ {body} }}\nfragment CA on T {{ x: id }}\nfragment CB on T {{ x: t {{ id }} }}\n");
+            if !body.contains("...CA") {
+                op = format!("query Conflict {{ {body} }}\n");
+            }
+        }
         12 | 13 => {
             // a valid generated project (the workload of the type-level monitors): after an accepted check every printer
             // runs, so a printer precondition that check does not establish shows up as a panic here
@@ -375,11 +420,13 @@ fn gen_inputs(rng: &mut Rng) -> (String, String, String, String, &'static str) {
                 op = render_exec(&d, None, Feat::plain());
                 // the second file must not hold an unused fragment (the listed finding's precondition): an operation instead
                 frag = "query Unrelated { __typename }\n".to_string();
-                let mut cfg = String::from("schema: ./schema.graphql\ndocuments: ./*.graphql\nextensions:\n  nitrogql:\n    generate:\n      schemaOutput: ./out/schema.d.ts\n      resolversOutput: ./out/resolvers.d.ts\n      serverGraphqlOutput: ./out/server.ts\n      type:\n        scalarTypes:\n");
+                let mut cfg = String::from("schema: ./schema.graphql\ndocuments:\n  - ./op.graphql\n  - ./frag.graphql\nextensions:\n  nitrogql:\n    generate:\n      schemaOutput: ./out/schema.d.ts\n      resolversOutput: ./out/resolvers.d.ts\n      serverGraphqlOutput: ./out/server.ts\n      type:\n        scalarTypes:\n");
                 let mut any = false;
                 for t in &ix.order {
                     if ix.kind(t) == Some(crate::model::TKind::Scalar) && !crate::schema_ix::BUILTIN_SCALARS.contains(&t.as_str()) {
-                        cfg.push_str(&format!("          {t}: string\n"));
+                        // TypeScript type texts with non-ASCII string-literal types before an identifier
+                        let ty = rng.s(&["string", "string", "\"'😀' | '日本語' | string\"", "\"Record<'é', number>\"", "\"'ü' | Date\"", "\"{ readonly 'ключ': string } | null\""]);
+                        cfg.push_str(&format!("          {t}: {ty}\n"));
                         any = true;
                     }
                 }
@@ -497,7 +544,98 @@ fn gen_inputs(rng: &mut Rng) -> (String, String, String, String, &'static str) {
     (schema, op, frag, config, kind)
 }
 
+/// CPU time consumed by the calling thread (load-independent, unlike wall-clock time)
+fn thread_cpu_ms() -> f64 {
+    let mut ts = libc::timespec { tv_sec: 0, tv_nsec: 0 };
+    unsafe {
+        libc::clock_gettime(libc::CLOCK_THREAD_CPUTIME_ID, &mut ts);
+    }
+    ts.tv_sec as f64 * 1000.0 + ts.tv_nsec as f64 / 1e6
+}
+
+/// Scaling families: the same construct at three sizes; the thread's CPU time of the check stage and of the whole
+/// pipeline is measured and a growth factor far above the growth of the input is reported. The decision is a *ratio* of
+/// CPU times of one thread on one machine (size 18 against size 14: 1.3x more input; 8x more CPU and at least 100 ms is
+/// called super-linear), not a deadline.
+pub fn scaling_family(name: &str, size: usize) -> (String, String) {
+    match name {
+        "fragment-chain-doubly-spread" => {
+            let mut op = String::from("query Chain { b { ...L0 } }\n");
+            for i in 0..size {
+                op.push_str(&format!("fragment L{i} on T {{ id ...L{} ...L{} }}\n", i + 1, i + 1));
+            }
+            op.push_str(&format!("fragment L{size} on T {{ id }}\n"));
+            (BASE_SCHEMA.to_string(), op)
+        }
+        "list-type-depth" => {
+            let ty = format!("{}Int{}", "[".repeat(size), "]".repeat(size));
+            (format!("type Query {{ a(x: {ty}): Int }}\n"), "query S { a }\n".to_string())
+        }
+        "selection-depth" => {
+            let mut op = String::from("query Deep { b { ");
+            for _ in 0..size {
+                op.push_str("t { ");
+            }
+            op.push_str("id ");
+            for _ in 0..size {
+                op.push_str("} ");
+            }
+            op.push_str("} }\n");
+            (BASE_SCHEMA.to_string(), op)
+        }
+        "input-value-depth" => {
+            let v = format!("{}{{k: 1}}{}", "{l: [".repeat(size), "]}".repeat(size));
+            (BASE_SCHEMA.to_string(), format!("query V {{ b(x: {v}) {{ id }} }}\n"))
+        }
+        "same-fragment-spread-many-times" => {
+            let mut op = String::from("query Many { b { ");
+            for _ in 0..size * 8 {
+                op.push_str("...M ");
+            }
+            op.push_str("} }\nfragment M on T { id s }\n");
+            (BASE_SCHEMA.to_string(), op)
+        }
+        _ => (BASE_SCHEMA.to_string(), BASE_OP.to_string()),
+    }
+}
+
+pub const SCALING_FAMILIES: &[&str] = &["fragment-chain-doubly-spread", "list-type-depth", "selection-depth", "input-value-depth", "same-fragment-spread-many-times"];
+
+pub fn check_scaling(family: &str) -> Vec<Violation> {
+    let replay = json!({"property":"C08","kind":"scaling","family":family});
+    let mut out = vec![];
+    let measure = |size: usize, check_only: bool| -> f64 {
+        let (schema, op) = scaling_family(family, size);
+        let sf = vec![("/proj/schema.graphql".to_string(), schema)];
+        let of = vec![("/proj/op.graphql".to_string(), op)];
+        let mut best = f64::MAX;
+        for _ in 0..2 {
+            let t0 = thread_cpu_ms();
+            let _ = run_project(&ProjectInput { schema_files: &sf, op_files: &of, config: BASE_CONFIG, generate: false, check_only });
+            best = best.min(thread_cpu_ms() - t0);
+        }
+        best
+    };
+    for (stage, check_only) in [("check", true), ("generate", false)] {
+        let small = measure(14, check_only);
+        let large = measure(18, check_only);
+        if large >= 100.0 && large >= 8.0 * small.max(0.05) {
+            out.push(Violation { sig: format!("C08|super-linear|{stage}|{family}"), detail: format!("family {family}: size 14 takes {small:.1} ms of CPU, size 18 takes {large:.1} ms ({}x for 1.3x the input) up to and including the {stage} stage: at this rate size 40 does not return", (large / small.max(0.05)).round()), replay: replay.clone() });
+        }
+    }
+    out
+}
+
 pub fn run(ctx: &Ctx, rep: &mut Report) {
+    // scaling families (shard 0 only: CPU time is measured on an otherwise idle thread of this process)
+    if ctx.shard == 0 {
+        for f in SCALING_FAMILIES {
+            rep.trace_case(|| json!({"property":"C08","kind":"scaling","family":f}));
+            rep.eval();
+            rep.count(&format!("scaling_families|{f}"));
+            rep.violations(check_scaling(f));
+        }
+    }
     let n = ctx.budget(160_000, 4_000_000);
     let cli_every = if ctx.thorough { 400 } else { 150 };
     for case in 0..n {
@@ -518,6 +656,7 @@ pub fn run(ctx: &Ctx, rep: &mut Report) {
             rep.violations(check_cli(ctx, case, &schema, &op, &frag, &config));
         }
     }
+    rep.add("cli_runs_where_generate_completed", CLI_OK.with(|c| c.get()));
     rep.note("stages observed per input: both parsers on every text, parse_config, resolve_schema_extensions, check_type_system_document, resolve_operation_extensions/imports, check_operation_document, and after an accepted check all printers; print_positioned_error on every diagnostic; schema_from_introspection_json on arbitrary text");
 }
 
@@ -655,6 +794,9 @@ pub fn has_unused_recursive_fragment(doc: &crate::model::ExecDoc) -> bool {
 }
 
 pub fn replay(case: &Value, ctx: &Ctx) -> Vec<Violation> {
+    if case["kind"].as_str() == Some("scaling") {
+        return check_scaling(case["family"].as_str().unwrap_or(""));
+    }
     let g = |k: &str| case[k].as_str().unwrap_or("").to_string();
     match case["kind"].as_str() {
         Some("project") => check_case(&g("schema"), &g("op"), &g("frag"), &g("config")),
